@@ -92,6 +92,9 @@ def main(argv=None):
     seed = int(os.environ.get("VERIF_SEED", "0"))
     t0 = time.time()
 
+    if prop == "selftest":
+        from pyvc import selftest
+        return selftest.main(tier, seed)
     handler = PR.SPECIAL.get(prop)
     if handler is not None:
         return handler(prop, tier, seed, a)
